@@ -2,11 +2,14 @@
 use crate::common::*;
 use kvarn::prelude::*;
 
-const FILES: [(&str, &str); 12] = [
+const FILES: [(&str, &str); 14] = [
     // a `cache` directive with a *duration* (and other keywords) after the guard
     ("ipscachedur.html", "!> allow-ips 10.0.0.1 &> cache server:300s\nSECRET-IPSD .................................................."),
     ("ipscacheqm.html", "!> allow-ips 10.0.0.1 &> cache server:query-matters client:full\nSECRET-IPSQ .................................................."),
     ("hidecache.html", "!> hide &> cache server:300s\nSECRET-HIDC .................................................."),
+    // a directive nobody mounted stands before the guard (a misspelt one, one of a feature that is compiled out): the guard holds
+    ("unkips.html", "!> site-badge gold &> allow-ips 10.0.0.1\nSECRET-UIPS .................................................."),
+    ("unkhide.html", "!> zz &> hide &> zz2 x\nSECRET-UHID .................................................."),
     ("ips.html", "!> allow-ips 10.0.0.1\nSECRET-IPS .................................................."),
     ("ipscache.html", "!> allow-ips 10.0.0.1 &> cache server:full\nSECRET-IPSC .................................................."),
     ("cacheips.html", "!> cache server:full &> allow-ips 10.0.0.1\nSECRET-CIPS .................................................."),
@@ -59,7 +62,7 @@ impl Group for Hist {
         "c17.hist"
     }
     fn rule(&self) -> &'static str {
-        "fixture files `!> allow-ips 10.0.0.1`, `… &> cache server:full`, `… &> cache server:300s`, `… &> cache server:query-matters client:full`, `!> hide &> cache server:300s`, `!> cache server:full &> allow-ips …`, `!> hide`, x.private, CRLF variant, a plain file; histories of 3-10 GET/HEAD requests from 10.0.0.1 (listed) and other addresses (10.0.0.6, 10.0.0.7, and the listed one embedded in IPv6: `::10.0.0.1`, `::ffff:10.0.0.1`) — allowed first so that a wrongly cached positive answer would leak — for percent-encoded spellings with <= 3 encoded characters (any character incl. the dot and letters of the extension, either hex case), with Accept-Encoding / Range variation, response+file caches on/off; through handle_cache (the client address is its argument); status and content id compared with the model; oracle: the secret marker appears only in replies to the listed address and never for hidden/private files; non-trivial = a guarded file is requested by a non-listed address after a listed one"
+        "fixture files `!> allow-ips 10.0.0.1`, `!> <unmounted directive> &> allow-ips …`, `!> zz &> hide &> …`, `… &> cache server:full`, `… &> cache server:300s`, `… &> cache server:query-matters client:full`, `!> hide &> cache server:300s`, `!> cache server:full &> allow-ips …`, `!> hide`, x.private, CRLF variant, a plain file; histories of 3-10 GET/HEAD requests from 10.0.0.1 (listed) and other addresses (10.0.0.6, 10.0.0.7, and the listed one embedded in IPv6: `::10.0.0.1`, `::ffff:10.0.0.1`) — allowed first so that a wrongly cached positive answer would leak — for percent-encoded spellings with <= 3 encoded characters (any character incl. the dot and letters of the extension, either hex case), with Accept-Encoding / Range variation, response+file caches on/off; through handle_cache (the client address is its argument); status and content id compared with the model; oracle: the secret marker appears only in replies to the listed address and never for hidden/private files; non-trivial = a guarded file is requested by a non-listed address after a listed one"
     }
     fn parallel(&self) -> bool {
         false
